@@ -70,7 +70,7 @@ def main():
         f.write("\n")
 
 
-HOOK_COMMITS = []
+HOOK_COMMITS = ["0d265a77d354839568a4ebf77ea7411aa35ccac5", "b842b89e1e294cca266f5a3d8cb7bdbb28e2463a"]   # client/verif_hooks.go, datacodec/verif_hooks.go (build tag verif, add-only)
 NA = {}
 
 if __name__ == "__main__":
